@@ -413,6 +413,34 @@ fn handle_parse_node<Data: GarnishData>(
                 _ => Err(CompilerError::new_message(format!("No build node at index {}", node_index)))?,
             };
 
+            // a block written directly after a closing bracket holds the bracket's content as its left child,
+            // that operand is built first, then the block
+            let pending_operand = match (node.state, parse_node.get_left()) {
+                (BuildNodeState::Uninitialized, Some(left)) => match nodes.get(left) {
+                    Some(None) => Some(left),
+                    _ => None,
+                },
+                _ => None,
+            };
+
+            if let Some(left) = pending_operand {
+                let containing = match nodes.get(node_index) {
+                    Some(Some(node)) => node.containing_expression_jump.clone(),
+                    _ => Err(CompilerError::new_message(format!("No build node at index {}", node_index)))?,
+                };
+
+                stack.push(node_index);
+                nodes[left] = Some(BuildNode::new(left, containing));
+                stack.push(left);
+
+                return Ok(());
+            }
+
+            let node = match nodes.get_mut(node_index) {
+                Some(Some(node)) => node,
+                _ => Err(CompilerError::new_message(format!("No build node at index {}", node_index)))?,
+            };
+
             match node.state {
                 BuildNodeState::Uninitialized => {
                     node.state = BuildNodeState::Initialized;
